@@ -19,9 +19,7 @@ WHAT = 'pipeline delivers every item through every stage exactly once'
 VAC = ('PlCatch', 'PlGuardRel', 'PlWtDiscDeq', 'PlWtDiscDec', 'PlWtAcqDec', 'TaskSkip', 'Terminated')
 
 
-def run(ctx):
-    thorough = ctx.tier == 'thorough'
-    exe = pc.build(ctx)
+def _e1(ctx, thorough):
     ctx.check_model(pc.SPEC, 'MCPipeline.tla', 'MC_clean.cfg', WHAT, workers=4, vacuity_exempt=VAC,
                     label='10 clean configurations: 1..4 stages, limits 1/2/unlimited, pool 0..2, <= 4 items')
     pc.negative_control(ctx, 'MC_neg_single.cfg', 'AllDelivered', 'one-stage pipeline on a zero-thread pool before the fix')
@@ -31,6 +29,13 @@ def run(ctx):
         ctx.check_model(pc.SPEC, 'MCPipeline.tla', 'MC_live.cfg', WHAT + ' (termination under fairness)', workers=4,
                         vacuity_exempt=VAC + ('PlWuLoadOut', 'PlWuHasExc', 'PlWuDeq', 'PlUnlHasExc', 'PlSchUnl'), timeout=1500,
                         label='liveness: <>Returned')
+
+
+def run(ctx):
+    thorough = ctx.tier == 'thorough'
+    exe = pc.build(ctx)
+    if not pc.traces_only():
+        _e1(ctx, thorough)
     pc.cleanup()
     rng = random.Random(ctx.seed)
     fixed = [
